@@ -22,7 +22,10 @@ func init() {
 }
 
 func runC19(c *Ctx) {
-	b, err := NewBed(c, "bed", BedOpts{Upstreams: []string{"pipe", "tcp", "dotp"}, MemSize: 64 << 20, Listeners: []string{"udp", "tcp", "gnet", "http", "fasthttp"}, UdpRcvBuf: 8 << 20})
+	// two client groups (ip marker): every key belongs to one client, in one group, so a refresh
+	// has to renew the entry of the right group while requests of the other group keep arriving
+	marker := "127.0.0.0,127.0.0.255,L\n127.9.0.0,127.9.255.255,M\n"
+	b, err := NewBed(c, "bed", BedOpts{Upstreams: []string{"pipe", "tcp", "dotp", "dot"}, IpMarker: marker, MemSize: 64 << 20, Listeners: []string{"udp", "tcp", "gnet", "http", "fasthttp"}, UdpRcvBuf: 8 << 20})
 	if err != nil {
 		c.startFailure(err, "c19")
 		return
@@ -32,7 +35,7 @@ func runC19(c *Ctx) {
 	seen := map[string]int{}
 	// each refresh outcome has its own upstream, so that a connection closed on purpose cannot take
 	// other keys' refreshes down with it (the transports would retry them: more upstream queries)
-	upOf := map[string]string{"rfok": "pipe", "rfclose": "tcp", "rfsilent": "dotp"}
+	upOf := map[string]string{"rfok": "pipe", "rfclose": "tcp", "rfsilent": "dotp", "rftc": "dot"}
 	hook := func(q *fakeup.QueryLog, d *fakeup.Directives) {
 		k := chKey(q.Name, q.Qtype, q.Qclass)
 		mu.Lock()
@@ -54,6 +57,9 @@ func runC19(c *Ctx) {
 			d.Kind = "close"
 		case strings.Contains(q.Name, "rfsilent"):
 			d.Kind = "silent"
+		case strings.Contains(q.Name, "rftc"):
+			d.Delay = 300
+			d.Kind = "tc" // a truncated reply (stream upstreams pass TC through) is not a successful refresh
 		}
 	}
 	for _, u := range upOf {
@@ -61,6 +67,7 @@ func runC19(c *Ctx) {
 	}
 	type key struct {
 		name    string
+		localIP string
 		burst   int
 		outcome string
 		ttl     int       // lifetime of the entry in seconds
@@ -75,7 +82,7 @@ func runC19(c *Ctx) {
 	reps := c.N(1, 4)
 	for rep := 0; rep < reps; rep++ {
 		for _, n := range bursts {
-			for _, oc := range []string{"rfok", "rfclose", "rfsilent"} {
+			for _, oc := range []string{"rfok", "rfclose", "rfsilent", "rftc"} {
 				keys = append(keys, &key{name: fmt.Sprintf("ok-n2-ttl16-%s-b%dr%dx%d.%s.test.", oc, n, rep, c.Seed, upOf[oc]), burst: n, outcome: oc, ttl: 16, hitAges: []float64{12.3}})
 			}
 		}
@@ -86,6 +93,12 @@ func runC19(c *Ctx) {
 		// many distinct questions in their refresh window at the same moment, slow refreshes
 		for i := 0; i < 48; i++ {
 			keys = append(keys, &key{name: fmt.Sprintf("ok-n1-ttl16-rfmany-m%dr%dx%d.pipe.test.", i, rep, c.Seed), burst: 1, outcome: "rfmany", ttl: 16, hitAges: []float64{12.3}, group: "many"})
+		}
+	}
+	for i, k := range keys {
+		k.localIP = "127.0.0.1"
+		if i%2 == 1 {
+			k.localIP = fmt.Sprintf("127.9.0.%d", 1+i%200)
 		}
 	}
 	h := &chHist{}
@@ -106,7 +119,7 @@ func runC19(c *Ctx) {
 			case <-time.After(1500 * time.Millisecond):
 			}
 			for _, u := range upOf {
-				go b.Exchange("udp", mkQuery(uint16(i), fmt.Sprintf("ok-keepalive%d.%s.test.", i, u), dns.TypeA, dns.ClassINET, false), xOpts{Timeout: 3 * time.Second})
+				go b.Exchange("udp", mkQuery(uint16(i), fmt.Sprintf("ok-keepalive%d.%s.test.", i, u), dns.TypeA, dns.ClassINET, false), xOpts{Timeout: 3 * time.Second, LocalIP: []string{"127.0.0.1", "127.9.1.1", "127.5.0.1"}[i%3]})
 			}
 		}
 	}()
@@ -120,7 +133,7 @@ func runC19(c *Ctx) {
 			} else {
 				time.Sleep(time.Duration(ki*130) * time.Millisecond) // stagger the bursts
 			}
-			k.first = h.query(b, "tcp", "", "", k.name, dns.TypeA, dns.ClassINET, "store", "")
+			k.first = h.query(b, "tcp", k.localIP, "", k.name, dns.TypeA, dns.ClassINET, "store", "")
 			if k.first.Err != "" || k.first.Serial == 0 {
 				return
 			}
@@ -138,7 +151,7 @@ func runC19(c *Ctx) {
 					bw.Add(1)
 					go func(i int) {
 						defer bw.Done()
-						r := h.query(b, listeners[(i+ki)%len(listeners)], "", "", k.name, dns.TypeA, dns.ClassINET, "burst", "")
+						r := h.query(b, listeners[(i+ki)%len(listeners)], k.localIP, "", k.name, dns.TypeA, dns.ClassINET, "burst", "")
 						hm.Lock()
 						k.hits = append(k.hits, r)
 						hm.Unlock()
@@ -155,7 +168,7 @@ func runC19(c *Ctx) {
 			}
 			for _, age := range ages {
 				sleepUntil(age)
-				r := h.query(b, listeners[ki%len(listeners)], "", "", k.name, dns.TypeA, dns.ClassINET, fmt.Sprintf("after@%.1f", age), "")
+				r := h.query(b, listeners[ki%len(listeners)], k.localIP, "", k.name, dns.TypeA, dns.ClassINET, fmt.Sprintf("after@%.1f", age), "")
 				k.after = append(k.after, r)
 			}
 		}(ki, k)
